@@ -37,17 +37,17 @@ def node_edge_sets(world):
 
 class C20(Machine):
     ID = "C20"
-    FAMILY_WEIGHTS = {"sparse": 2, "dense": 1, "canal": 5, "modular": 5, "maa": 1}
+    FAMILY_WEIGHTS = {"sparse": 2, "dense": 1, "canal": 5, "modular": 5, "maa": 1, "cascade": 6}
     NMAX = {"quick": 6, "thorough": 8}
 
     def gen_params(self, sc, rng):
-        mode = rng.choice(["history", "history", "history", "summary"])
+        mode = rng.choice(["history", "history", "subtree_first", "subtree_first", "summary"])
         sc["params"] = {"mode": mode, "len": rng.randint(1, 8), "other_len": rng.randint(0, 5), "other_seed": rng.randrange(1 << 30), "p_cache": 0.1}
 
     def setup(self, world, sc):
         p = sc["params"]
         st = {"params": p, "done_build": False, "depth_checks": 0, "multi_path_nodes": 0, "find_checks": 0, "sub_checks": 0, "summary_checked": 0}
-        if p["mode"] == "history":
+        if p["mode"] in ("history", "subtree_first"):
             other = World(sc["net"], None, None, None, budget=True)
             rng = sub_rng(p["other_seed"], "other")
             for _ in range(p["other_len"]):
@@ -64,6 +64,19 @@ class C20(Machine):
                 return None
             st["done_build"] = True
             return {"op": "build", "summary_check": True}
+        if p["mode"] == "subtree_first":
+            # expand whole sub-diagrams below randomly chosen stubs first: the ancestors are
+            # expanded later, so longer paths to nodes that already have expanded descendants
+            # keep being discovered (depth must propagate through shared descendants)
+            stubs = world.stubs()
+            if not stubs or step >= 12:
+                return None
+            if step == 0:
+                return {"op": "expand_one", "node": world.space_of(0)}
+            nid = rng.choice(stubs)
+            if rng.random() < 0.5:
+                return {"op": "dfs", "node": world.space_of(nid), "stack": None, "size": None}
+            return {"op": "bfs", "node": world.space_of(nid), "level": rng.choice([None, None, 0, 1]), "size": None}
         if step >= p["len"]:
             return None
         if rng.random() < p["p_cache"]:
